@@ -430,6 +430,10 @@ def exhaustive_cases(tier):
         c = base_case("telnet", stack, user_prompt="login:", pass_prompt="Password: ", max_tries=3, after_max="reprompt")
         c["creds"]["password"] = "bad"
         shorts.append(c)
+        c = base_case("telnet", stack, user_prompt="login:", pass_prompt="Password:", max_tries=3, after_max="reprompt", reject_to="pass",
+                      reject_msg="bad")
+        c["creds"]["password"] = "bad"
+        shorts.append(c)
         shorts.append(base_case("telnet", stack, user_prompt="login: ", pass_prompt="Password: ", banner="Last login: Mon\n", shell_prompt="r1#"))
         shorts.append(base_case("ssh", stack, pass_prompt="a@r1's password: ", banner="ok\n", shell_prompt="r1#"))
         c = base_case("ssh", stack, pass_prompt="Password:", pre="Warning: x\n")
@@ -474,7 +478,7 @@ def gen_random(rng, stream):
     if flavour == "telnet":
         dev.update(user_prompt=rng.choice(USER_PROMPTS), pass_prompt=rng.choice(PASS_PROMPTS), pre=rng.choice(PRE_CLEAN),
                    banner=rng.choice(POST_CLEAN), max_tries=rng.choice([1, 2, 3, 3, 5]), after_max=rng.choice(["close", "reprompt"]),
-                   echo=rng.random() < 0.9, reprompt_nl=rng.random() < 0.7)
+                   echo=rng.random() < 0.9, reprompt_nl=rng.random() < 0.7, reject_to=rng.choice(["user", "user", "pass"]))
         if rng.random() < 0.15:
             dev["needs_kick"] = rng.choice([1, 2])
     else:
@@ -722,7 +726,7 @@ def run(tier, seed):
     ck.extra["advisory_out_of_domain_disagreements"] = adv_dis
     ck.extra["advisory_outcomes"] = outcomes
     ck.exhaustive = True
-    ck.extra["exhaustive_scope"] = "16 short dialogues x (whole, 1-byte reads, every single cut, every double cut of the output stream)"
+    ck.extra["exhaustive_scope"] = "18 short dialogues x (whole, 1-byte reads, every single cut, every double cut of the output stream)"
     return ck.finish()
 
 
